@@ -368,6 +368,8 @@ def run(seed=0, rounds=400):
         check('dict-equality-is-pointwise', (da == db) == (set(da) == set(db) and all(da[k] == db[k] for k in da)), da, db)
     from native import axioms_c13
     axioms_c13.run(rng, check)
+    from native import axioms_c06b  # numpy METADATA axioms of pyvc/npshape.py + nutils_poly plan shapes (contracts/C06b.py)
+    axioms_c06b.run(rng, check, rounds=max(10, rounds // 8))
     print('AXIOMS ' + json.dumps(dict(rounds=rounds, failures=fails[:5])))
     ok_sets = run_sets(seed)
     ok_ev = evaluable_nodes(seed)
